@@ -27,7 +27,7 @@ class C09(core.Check):
         'cycle:2', 'cycle:3', 'cycle:4', 'use-before-define', 'double:isa+isa', 'double:isa+cli', 'double:isa+define',
         'double:cli+cli', 'double:cli+define', 'double:define+define', 'expands-to:register', 'expands-to:label',
         'expands-to:expression', 'source:isa', 'source:cli', 'source:define', 'unparenthesised-expression-value', 'double:identical-text',
-        'quoted-value-used', 'define-while-muted', 'quoted-value-from:isa', 'quoted-value-from:cli', 'quoted-value-from:define']}
+        'quoted-value-used', 'define-while-muted', 'same-line-text-repeated', 'quoted-value-from:isa', 'quoted-value-from:cli', 'quoted-value-from:define']}
 
     def build(self, rng, mode, quoted=None, muted=None):
         tags = set()
@@ -190,6 +190,7 @@ class C09(core.Check):
                 tags.add('use-before-define')
                 break
         n_probe = rng.randrange(3, 9)
+        prev_texts = []
         for i in range(n_probe):
             if pending and rng.random() < 0.5:
                 nm, txt = pending.pop(0)
@@ -219,6 +220,11 @@ class C09(core.Check):
                     atoms.append(gen_prog.num_text(rng.randrange(0, 100), rng))
             op = rng.choice([' + ', ' + ', ' * ', ' - '])
             text = op.join(atoms)
+            if prev_texts and rng.random() < 0.3:
+                # the very same line text again: what it means depends on the definitions made in between
+                text = rng.choice(prev_texts)
+                tags.add('same-line-text-repeated')
+            prev_texts.append(text)
             kind = '.2byte'
             if reg_sym and table.get(reg_sym) in ('a', 'b', 'sp') and rng.random() < 0.25:
                 line = f'inr {reg_sym}'
